@@ -12,13 +12,17 @@
 //	xpacc <period> <bn> <nvals> <mode> <ts> <prop>                             xpoa CheckMinerMatch  -> accept|reject|panic
 //	single <idok> <prop> <key> <sig>                                           single CheckMinerMatch
 //	pow <D> <G> <E> <M> <n> (<bits|x> <ts>){n} <height> <parent> <bits|x> <ts> <hash> <idok> <key> <sig>   pow CheckMinerMatch
+//	powf ...   pow CheckMinerMatch on a ledger with side branches (format in powcase.go)
+//	plug <genesis> <upgrades|-> <events|-> <cand>   pluggable-consensus layer: upgrades, restarts, dispatch (format in plug.go)
+//	tdel <pn> <bn> <start> <init> <terms> <snaps> <fault> <h> <term> <pos> <bp> <prop>   tdpos vote-based election (format in elect.go)
 //
 // proposer tokens (tdacc/xpacc): k = k-th validator of the list in force, 50+k = k-th validator of the
 // list NOT in force (xpacc mode 2), 99 = outsider, -1 = empty proposer field.
 // tdacc hmode: 0 = block at height 2 (init validators), 1 = block at height 5 on a 5-block ledger (ledger path).
 // xpacc mode 3: as mode 2, the contract snapshot holding nvals+1 validators (the node's in-memory list holds nvals).
 // xpacc mode: 0 = validator set unavailable (height far above the tip), 1 = height 2 (init validators),
-// 2 = height 5, validators taken from the contract snapshot.
+// 2 = height 5, validators taken from the contract snapshot; 4 / 5 / 6 = as 2, while the block is checked every read through a
+// snapshot reader fails / CreateSnapshot fails / the validator record does not decode.
 package main
 
 import (
@@ -26,6 +30,7 @@ import (
 	"fmt"
 	"math/big"
 	"os"
+	"sort"
 	"strconv"
 	"strings"
 
@@ -528,8 +533,12 @@ func exec(line string) (res string) {
 			return "bad-op"
 		}
 		return execSingle(line, w)
-	case "pow":
+	case "pow", "powf":
 		return execPow(line, w)
+	case "plug":
+		return execPlug(line, w)
+	case "tdel":
+		return execTdel(line, w)
 	}
 	return "bad-op"
 }
@@ -566,17 +575,47 @@ func execTdAcc(line string, w []string) string {
 
 func execXpAcc(line string, w []string) string {
 	period, bn, nvals, mode, ts, prop := atoi(w[1]), atoi(w[2]), int(atoi(w[3])), int(atoi(w[4])), atoi(w[5]), atoi(w[6])
-	inst, l := xpoaInst(period, bn, nvals, mode)
+	if mode < 0 || mode > 6 {
+		return "bad-op"
+	}
+	instMode := mode
+	if mode >= 4 {
+		instMode = 2 // the same node as in mode 2; the storage misbehaves only while the block is checked
+	}
+	inst, l := xpoaInst(period, bn, nvals, instMode)
 	inForce, other := 0, altBase
 	height := int64(2)
 	switch mode {
 	case 0:
 		height = 40 // far above the tip: block height-4 is not in the ledger, the validator set cannot be computed
-	case 2:
-		height, inForce, other = 5, altBase, 0
-	case 3:
+	case 2, 3, 4, 5, 6:
 		height, inForce, other = 5, altBase, 0
 	}
+	switch mode {
+	case 4:
+		l.fault = func(op, bucket, key string) error {
+			if op == "get" {
+				return errInjected
+			}
+			return nil
+		}
+	case 5:
+		l.fault = func(op, bucket, key string) error {
+			if op == "snapshot" {
+				return errInjected
+			}
+			return nil
+		}
+	case 6:
+		l.state = func(h int64, bucket, key string) ([]byte, bool) {
+			if bucket+"/"+key == "$poa/0_validates" {
+				return []byte("{\"address\":[\"x"), true
+			}
+			v, ok := l.snap[bucket+"/"+key]
+			return v, ok
+		}
+	}
+	defer func() { l.fault, l.state = nil, nil }()
 	nForce := nvals
 	if mode == 3 {
 		nForce = nvals + 1
@@ -588,6 +627,13 @@ func execXpAcc(line string, w []string) string {
 	if ok {
 		want := xpSpec(period, bn, ts, nForce)
 		switch {
+		case mode == 6:
+			out.Violate(xvlib.Violation{Key: "xpoa-accept-undecodable-validators", What: fmt.Sprintf("xpoa CheckMinerMatch accepted a block (proposer %q) although the validator record of the snapshot in force does not decode: the chain's state names no validators", addr),
+				Ops: []string{line}, Impl: []string{"accept"}})
+		case (mode == 4 || mode == 5) && (id < 0 || id-inForce != int(want[1])):
+			out.Violate(xvlib.Violation{Key: "xpoa-accept-not-entitled-under-read-fault", What: fmt.Sprintf("xpoa CheckMinerMatch accepted a block of account #%d at timestamp %d while the validator record could not be read (storage fault during the check); the slot %v belongs to validator #%d of the set recorded on the chain", id, ts, want, int(want[1])+inForce),
+				Ops: []string{line}, Impl: []string{"accept"}})
+		case mode == 4 || mode == 5:
 		case mode == 0 || nForce == 0:
 			out.Violate(xvlib.Violation{Key: "xpoa-accept-no-validators", What: fmt.Sprintf("xpoa CheckMinerMatch accepted a block (proposer %q) although no validator set can be computed for it, so nobody is entitled", addr),
 				Ops: []string{line}, Impl: []string{"accept"}})
@@ -720,7 +766,7 @@ func main() {
 		out.Case(line, nontrivial)
 		kind := strings.Fields(line)[0]
 		switch kind {
-		case "tdacc", "xpacc", "single", "pow":
+		case "tdacc", "xpacc", "single", "pow", "powf", "plug", "tdel":
 			out.Count(kind + ":" + r)
 		default:
 			out.Count(kind)
@@ -734,6 +780,14 @@ func main() {
 		return
 	}
 	rng := xvlib.NewRng(args.Seed)
+	// independent streams for the later sections: the streams xvlib derives from neighbouring seeds are shifted
+	// copies of one another and fall into step after the sampling loops, so each section mixes the seed anew
+	subRng := func(tag uint64) *xvlib.Rng {
+		z := (args.Seed+1)*0xD6E8FEB86659FD93 + tag*0xA0761D6478BD642F
+		z = (z ^ (z >> 32)) * 0xD6E8FEB86659FD93
+		z = (z ^ (z >> 29)) * 0xA0761D6478BD642F
+		return xvlib.NewRng(z ^ (z >> 32))
+	}
 	// 0. corpus (minimal replays of past findings) first
 	if ents, err := os.ReadDir("corpus/" + args.Prop); err == nil {
 		for _, e := range ents {
@@ -977,7 +1031,10 @@ func main() {
 				tt := period * bn * int64(n)
 				base := int64(1559021720000) / tt * tt
 				bs := boundaries(func(T int64) [3]int64 { return xpReal(period, bn, T*1000000, n) }, base, base+2*tt+2)
-				for mode := 0; mode <= 2; mode++ {
+				for _, mode := range []int{0, 1, 2, 4, 5, 6} {
+					if mode >= 4 && period == 500 && !thorough {
+						continue
+					}
 					for _, T := range bs {
 						ts := T * 1000000
 						if T%3 == 1 {
@@ -986,7 +1043,7 @@ func main() {
 						props := []int64{99, -1}
 						for k := 0; k < n; k++ {
 							props = append(props, int64(k))
-							if mode == 2 {
+							if mode == 2 || mode >= 4 {
 								props = append(props, int64(50+k))
 							}
 						}
@@ -1032,13 +1089,87 @@ func main() {
 	if thorough {
 		powCases = 120000
 	}
+	powRng := subRng(6)
 	for i := 0; i < powCases; i++ {
-		line := genPow(rng)
+		line := genPow(powRng)
 		r := run(line, true)
 		if i < 2 {
 			out.Sample(map[string]string{"op": line, "impl": r})
 		}
 	}
+	// 7. pow candidates on forked histories (side branches with their own timestamps; either branch is the main chain)
+	forkCases := 6000
+	if thorough {
+		forkCases = 120000
+	}
+	forkRng := subRng(7)
+	for i := 0; i < forkCases; i++ {
+		line := genPowFork(forkRng)
+		r := run(line, true)
+		if i < 1 {
+			out.Sample(map[string]string{"op": line, "impl": r})
+		}
+	}
+	// 8. the pluggable-consensus layer: every genesis kind x every upgrade sequence of up to 2 (thorough: 3) upgrades
+	//    x patterns of live upgrades and restarts x every candidate kind
+	plugKinds := []string{"s0", "s1", "p", "t", "x"}
+	plugCands := []string{"s0", "s1", "sp0", "p", "ps0", "t", "x", "n"}
+	maxUps := 2
+	if thorough {
+		maxUps = 3
+	}
+	var upSeqs [][]string
+	var rec func(cur []string)
+	rec = func(cur []string) {
+		upSeqs = append(upSeqs, append([]string{}, cur...))
+		if len(cur) == maxUps {
+			return
+		}
+		for _, k := range plugKinds {
+			rec(append(cur, k))
+		}
+	}
+	rec(nil)
+	sort.SliceStable(upSeqs, func(i, j int) bool { return len(upSeqs[i]) < len(upSeqs[j]) }) // short histories first: minimal witnesses
+	for _, ups := range upSeqs {
+		for _, g := range plugKinds {
+			k := len(ups)
+			pats := map[string]bool{strings.Repeat("U", k): true, strings.Repeat("U", k) + "R": true, strings.Repeat("UR", k): true, "R" + strings.Repeat("U", k): true}
+			if k >= 1 {
+				pats[strings.Repeat("U", k-1)+"RU"] = true
+				pats["UR"+strings.Repeat("U", k-1)+"R"] = true
+				pats[strings.Repeat("U", k)+"RR"] = true
+			}
+			var ps []string
+			for p := range pats {
+				ps = append(ps, p)
+			}
+			sort.Strings(ps)
+			upTok := "-"
+			if k > 0 {
+				upTok = strings.Join(ups, ",")
+			}
+			for _, p := range ps {
+				if p == "" {
+					p = "-"
+				}
+				for _, c := range plugCands {
+					run(fmt.Sprintf("plug %s %s %s %s", g, upTok, p, c), true)
+				}
+			}
+		}
+	}
+	// 9. tdpos vote-based election: random ledgers / election records / storage faults around term boundaries
+	elScenarios := 1500
+	if thorough {
+		elScenarios = 30000
+	}
+	elRng := subRng(9)
+	for i := 0; i < elScenarios; i++ {
+		genTdel(elRng, func(line string) { run(line, true) })
+	}
+	out.Sample(map[string]string{"op": "tdel 2 2 1 0,1 0,1,1,1,1 1@2=5;3=4;0=1 v2 5 2 0 0 3", "impl": exec("tdel 2 2 1 0,1 0,1,1,1,1 1@2=5;3=4;0=1 v2 5 2 0 0 3")})
+	out.Sample(map[string]string{"op": "plug s0 p UR sp0", "impl": exec("plug s0 p UR sp0")})
 	out.Sample(map[string]string{"op": "tdr 3 2 0 3 2 3 0 40", "impl": exec("tdr 3 2 0 3 2 3 0 40")})
 	out.Sample(map[string]string{"op": "sc 486604799", "impl": exec("sc 486604799")})
 	out.Stats.Exhaustive = false
@@ -1051,6 +1182,6 @@ func main() {
 			"check_miner_match_what": "tdpos CheckMinerMatch at every schedule change -1/0/+1 ms of two terms, every validator as proposer: 'excluded' = configurations violating the source comment's constraint, 'period1' = well-formed configurations with period 1 ms (slot 0 is empty there, so blockPos=0 is never accepted)",
 		},
 	}
-	out.Stats.Rule = fmt.Sprintf("schedules: EXHAUSTIVE over period in {1,3,500} x blockNum 1..4 x proposerNum 1..4 x alternateInterval in {p,p+1,2p+1} x termInterval in {a,a+2,2a+p} (x 2 start times; xpoa: validators 1..4, two epochs) x every millisecond of three terms (%d ms), run-length compared with the regenerated Lean definition, plus 6000 random sub-millisecond points; compact codec: all boundary encodings + %d random encodings/numbers; acceptance: tdpos/xpoa CheckMinerMatch at every slot boundary -1/0/+1 ms of two terms x every proposer (validators, outsider, empty, stale set) x ledger modes, single: all 72 combinations, pow: %d random candidates on generated histories (retarget boundaries, clamp boundaries, hash at target-1/target/target+1); a case is one op line, non-trivial = distinct",
-		msTotal, samples, powCases)
+	out.Stats.Rule = fmt.Sprintf("schedules: EXHAUSTIVE over period in {1,3,500} x blockNum 1..4 x proposerNum 1..4 x alternateInterval in {p,p+1,2p+1} x termInterval in {a,a+2,2a+p} (x 2 start times; xpoa: validators 1..4, two epochs) x every millisecond of three terms (%d ms), run-length compared with the regenerated Lean definition, plus 6000 random sub-millisecond points; compact codec: all boundary encodings + %d random encodings/numbers; acceptance: tdpos/xpoa CheckMinerMatch at every slot boundary -1/0/+1 ms of two terms x every proposer (validators, outsider, empty, stale set) x ledger modes, single: all 72 combinations, pow: %d random candidates on generated single-chain histories + %d on forked histories (two branches with their own timestamps, either one the main chain; retarget boundaries, clamp boundaries, hash at target-1/target/target+1, target bits a by-height look-up would prescribe), each followed by three probes around the independently computed prescribed target; pluggable consensus: every genesis kind x every upgrade sequence of up to %d upgrades over {single(2 miners), pow, tdpos, xpoa} x 4-7 patterns of live upgrades and restarts x 8 candidate kinds, each scenario run 16 times; tdpos election: %d random scenarios (ledger with term boundaries, 1-4 election records around the deciding snapshot, ties, non-positive totals, undecodable records, storage faults) x every slot position x every plausible proposer; a case is one op line, non-trivial = distinct",
+		msTotal, samples, powCases, forkCases, maxUps, elScenarios)
 }
